@@ -538,4 +538,527 @@ theorem erase_spec (trk : Bool) {N : Nat} {v : SVec} {es : List Elem} (h : Abs N
       cases trk <;> grind
     · simp [a3, b3, specErase]; omega
 
+
+set_option linter.unusedSimpArgs false
+
+/-! ## the machine of K objects against the reference machine -/
+
+abbrev SpecRegs := Nat → Option (List Elem)
+
+def setSpec (f : SpecRegs) (r : Nat) (x : Option (List Elem)) : SpecRegs := fun q => if q = r then x else f q
+
+/-- reference semantics of one operation on K sequences of capacity N
+    (an operation outside the contract changes nothing) -/
+def specStep (c : Cfg) (sp : SpecRegs) : Op → SpecRegs
+  | .new r =>
+      match decide (r < c.K), sp r with
+      | true, none => setSpec sp r (some [])
+      | _, _ => sp
+  | .copy r s =>
+      match decide (r < c.K ∧ s < c.K), sp r, sp s with
+      | true, none, some eo => setSpec sp r (some eo)
+      | _, _, _ => sp
+  | .move r s =>
+      match decide (r < c.K ∧ s < c.K), sp r, sp s with
+      | true, none, some eo => setSpec (setSpec sp s (some (if c.port then movedFrom c.trk eo else []))) r (some eo)
+      | _, _, _ => sp
+  | .range r xs =>
+      match decide (r < c.K ∧ c.port = false), sp r with
+      | true, none => setSpec sp r (some (specCtor c.N xs))
+      | _, _ => sp
+  | .il r xs =>
+      match decide (r < c.K ∧ c.port = false), sp r with
+      | true, none => setSpec sp r (some (specCtor c.N xs))
+      | _, _ => sp
+  | .acopy r s =>
+      match decide (r < c.K ∧ s < c.K), sp r, sp s with
+      | true, some _, some eo => setSpec sp r (some eo)
+      | _, _, _ => sp
+  | .amove r s =>
+      match decide (r < c.K ∧ s < c.K), sp r, sp s with
+      | true, some _, some eo => if r = s then sp else setSpec (setSpec sp s (some [])) r (some eo)
+      | _, _, _ => sp
+  | .push r x =>
+      match decide (r < c.K), sp r with
+      | true, some es => setSpec sp r (some (specPush c.N es x))
+      | _, _ => sp
+  | .emplace r x =>
+      match decide (r < c.K), sp r with
+      | true, some es => setSpec sp r (some (specPush c.N es x))
+      | _, _ => sp
+  | .resize r n =>
+      match decide (r < c.K), sp r with
+      | true, some es => setSpec sp r (some (specResize c.N es n))
+      | _, _ => sp
+  | .erase r i j =>
+      match decide (r < c.K ∧ c.port = false), sp r with
+      | true, some es => if i ≤ j ∧ j ≤ es.length then setSpec sp r (some (specErase es i j)) else sp
+      | _, _ => sp
+  | .clear r =>
+      match decide (r < c.K), sp r with
+      | true, some _ => setSpec sp r (some [])
+      | _, _ => sp
+  | .del r =>
+      match decide (r < c.K), sp r with
+      | true, some _ => setSpec sp r none
+      | _, _ => sp
+  | .finish => fun _ => none
+
+def specRun (c : Cfg) : List Op → SpecRegs → SpecRegs
+  | [], sp => sp
+  | op :: ops, sp => specRun c ops (specStep c sp op)
+
+def Rel (N : Nat) : Option SVec → Option (List Elem) → Prop
+  | none, none => True
+  | some v, some es => Abs N v es
+  | _, _ => False
+
+def szOf (sp : SpecRegs) (r : Nat) : Nat :=
+  match sp r with
+  | some es => es.length
+  | none => 0
+
+def total (f : Nat → Nat) : Nat → Nat
+  | 0 => 0
+  | k + 1 => total f k + f k
+
+structure MInv (c : Cfg) (m : Mach) (sp : SpecRegs) : Prop where
+  rel : ∀ r, Rel c.N (m.regs r) (sp r)
+  out : ∀ r, c.K ≤ r → sp r = none
+  bal : m.nctor = m.ndtor + total (szOf sp) c.K
+
+theorem total_congr {f g : Nat → Nat} : ∀ (k : Nat), (∀ q, q < k → f q = g q) → total f k = total g k := by
+  intro k
+  induction k with
+  | zero => intro _; rfl
+  | succ k ih => intro h; simp [total, ih (fun q hq => h q (by omega)), h k (by omega)]
+
+theorem total_set (sp : SpecRegs) (r : Nat) (x : Option (List Elem)) : ∀ (k : Nat), r < k →
+    total (szOf (setSpec sp r x)) k + szOf sp r = total (szOf sp) k + szOf (setSpec sp r x) r := by
+  intro k
+  induction k with
+  | zero => intro h; omega
+  | succ k ih =>
+    intro h
+    by_cases hk : r = k
+    · subst hk
+      have : total (szOf (setSpec sp r x)) r = total (szOf sp) r :=
+        total_congr r (fun q hq => by simp [szOf, setSpec]; rw [if_neg (by omega)])
+      simp [total, this]; omega
+    · have := ih (by omega)
+      have e : szOf (setSpec sp r x) k = szOf sp k := by simp [szOf, setSpec]; rw [if_neg (by omega)]
+      simp [total, e]; omega
+
+@[simp] theorem szOf_set_self (sp : SpecRegs) (r : Nat) (es : List Elem) : szOf (setSpec sp r (some es)) r = es.length := by
+  simp [szOf, setSpec]
+@[simp] theorem szOf_set_none (sp : SpecRegs) (r : Nat) : szOf (setSpec sp r none) r = 0 := by
+  simp [szOf, setSpec]
+theorem szOf_set_ne (sp : SpecRegs) {r q : Nat} (x : Option (List Elem)) (h : q ≠ r) : szOf (setSpec sp r x) q = szOf sp q := by
+  simp [szOf, setSpec, h]
+
+theorem szOf_some {sp : SpecRegs} {r : Nat} {es : List Elem} (h : sp r = some es) : szOf sp r = es.length := by
+  simp [szOf, h]
+theorem szOf_of {sp : SpecRegs} {r : Nat} {x : Option (List Elem)} (h : sp r = x) :
+    szOf sp r = (match x with | some es => es.length | none => 0) := by cases x <;> simp [szOf, h]
+theorem szOf_none {sp : SpecRegs} {r : Nat} (h : sp r = none) : szOf sp r = 0 := by
+  simp [szOf, h]
+
+theorem countK_glob_ctor (r s : Nat) (tr : Tr) : countK .ctor (glob r s tr) = nC tr := by
+  simp [countK, glob, nC, List.filter_map, Function.comp_def]
+theorem countK_glob_dtor (r s : Nat) (tr : Tr) : countK .dtor (glob r s tr) = nD tr := by
+  simp [countK, glob, nD, List.filter_map, Function.comp_def]
+
+theorem rel_none {N : Nat} {o : Option SVec} {x : Option (List Elem)} (h : Rel N o x) : o = none ↔ x = none := by
+  cases o <;> cases x <;> simp_all [Rel]
+
+theorem minv_same {c : Cfg} {m : Mach} {sp : SpecRegs} (h : MInv c m sp) : MInv c (m.log m.regs []).1 sp :=
+  ⟨h.rel, h.out, by simpa [Mach.log, countK] using h.bal⟩
+
+/-- one register replaced -/
+theorem minv_set1 {c : Cfg} {m : Mach} {sp : SpecRegs} (h : MInv c m sp) {r : Nat} (hr : r < c.K)
+    {v' : Option SVec} {es' : Option (List Elem)} (s : Nat) (tr : Tr) (habs : Rel c.N v' es')
+    (hbal : nC tr + szOf sp r = nD tr + szOf (setSpec sp r es') r) :
+    MInv c (m.log (setReg m.regs r v') (glob r s tr)).1 (setSpec sp r es') := by
+  refine ⟨?_, ?_, ?_⟩
+  · intro q
+    by_cases hq : q = r
+    · subst hq; simpa [Mach.log, setReg, setSpec] using habs
+    · simpa [Mach.log, setReg, setSpec, hq] using h.rel q
+  · intro q hq
+    have : q ≠ r := by omega
+    simpa [setSpec, this] using h.out q hq
+  · have := total_set sp r es' c.K hr
+    have := h.bal
+    simp only [Mach.log, countK_glob_ctor, countK_glob_dtor]
+    omega
+
+/-- two different registers replaced -/
+theorem minv_set2 {c : Cfg} {m : Mach} {sp : SpecRegs} (h : MInv c m sp) {r s : Nat} (hr : r < c.K) (hs : s < c.K)
+    (hne : r ≠ s) {v' o' : Option SVec} {er' es' : Option (List Elem)} (tr : Tr)
+    (habs : Rel c.N v' er') (habs2 : Rel c.N o' es')
+    (hbal : nC tr + szOf sp r + szOf sp s =
+      nD tr + szOf (setSpec sp r er') r + szOf (setSpec sp s es') s) :
+    MInv c (m.log (setReg (setReg m.regs s o') r v') (glob r s tr)).1 (setSpec (setSpec sp s es') r er') := by
+  refine ⟨?_, ?_, ?_⟩
+  · intro q
+    by_cases hq : q = r
+    · subst hq; simpa [Mach.log, setReg, setSpec] using habs
+    · by_cases hq2 : q = s
+      · subst hq2; simpa [Mach.log, setReg, setSpec, hq] using habs2
+      · simpa [Mach.log, setReg, setSpec, hq, hq2] using h.rel q
+  · intro q hq
+    have : q ≠ r := by omega
+    have : q ≠ s := by omega
+    simpa [setSpec, *] using h.out q hq
+  · have t1 := total_set sp s es' c.K hs
+    have t2 := total_set (setSpec sp s es') r er' c.K hr
+    have e1 : szOf (setSpec sp s es') r = szOf sp r := szOf_set_ne sp es' hne
+    have e2 : szOf (setSpec (setSpec sp s es') r er') r = szOf (setSpec sp r er') r := by simp [szOf, setSpec]
+    have := h.bal
+    simp only [Mach.log, countK_glob_ctor, countK_glob_dtor]
+    omega
+
+
+
+def specFinish (k : Nat) (sp : SpecRegs) : SpecRegs := fun q => if q < k then none else sp q
+
+theorem finishLoop_spec {c : Cfg} : ∀ (k : Nat) (m : Mach) (sp : SpecRegs) (acc : List GEv), MInv c m sp → k ≤ c.K →
+    ∃ mr : Mach × List GEv, finishLoop k m acc = .ok mr ∧ MInv c mr.1 (specFinish k sp) := by
+  intro k
+  induction k with
+  | zero =>
+    intro m sp acc h _
+    have e : specFinish 0 sp = sp := by funext q; simp [specFinish]
+    exact ⟨(m, acc), rfl, by rw [e]; exact h⟩
+  | succ k ih =>
+    intro m sp acc h hk
+    have hrel := h.rel k
+    cases hm : m.regs k with
+    | none =>
+      have hs : sp k = none := (rel_none hrel).mp hm
+      obtain ⟨mr, h1, h2⟩ := ih m sp acc h (by omega)
+      refine ⟨mr, by simp [finishLoop, hm, h1], ?_⟩
+      have e : specFinish (k + 1) sp = specFinish k sp := by
+        funext q
+        by_cases hq : q = k
+        · subst hq; simp [specFinish, hs]
+        · simp only [specFinish]
+          by_cases hq2 : q < k
+          · rw [if_pos hq2, if_pos (by omega)]
+          · rw [if_neg hq2, if_neg (by omega)]
+      rw [e]; exact h2
+    | some v =>
+      cases hs : sp k with
+      | none => rw [hm, hs] at hrel; exact hrel.elim
+      | some es =>
+        rw [hm, hs] at hrel
+        obtain ⟨v', tr, p1, p2, p3, p4⟩ := destructor_spec hrel
+        have hinv := minv_set1 h (show k < c.K by omega) (es' := none) k tr (v' := none) trivial
+          (by simp only [szOf_set_none, szOf_of hs]; omega)
+        obtain ⟨mr, h1, h2⟩ := ih _ _ (acc ++ glob k k tr) hinv (by omega)
+        refine ⟨mr, by simpa [finishLoop, hm, p1, bind, Except.bind, Mach.log] using h1, ?_⟩
+        have e : specFinish (k + 1) sp = specFinish k (setSpec sp k none) := by
+          funext q
+          by_cases hq : q = k
+          · subst hq; simp [specFinish, setSpec]
+          · simp only [specFinish, setSpec]
+            by_cases hq2 : q < k
+            · rw [if_pos hq2, if_pos (by omega)]
+            · rw [if_neg hq2, if_neg (by omega), if_neg hq]
+        rw [e]; exact h2
+
+theorem step_refines {c : Cfg} {m : Mach} {sp : SpecRegs} (h : MInv c m sp) (op : Op) :
+    ∃ mr : Mach × Res, step c m op = .ok mr ∧ MInv c mr.1 (specStep c sp op) := by
+  cases op with
+  | push r x =>
+    by_cases hk : r < c.K
+    · have hrel := h.rel r
+      cases hm : m.regs r with
+      | none =>
+        have hs : sp r = none := (rel_none hrel).mp hm
+        exact ⟨(m, none), by simp [step, hk, hm], by simpa [specStep, hk, hs] using h⟩
+      | some v =>
+        cases hs : sp r with
+        | none => rw [hm, hs] at hrel; exact hrel.elim
+        | some es =>
+          rw [hm, hs] at hrel
+          obtain ⟨v', tr, p1, p2, p3⟩ := pushBack_spec hrel x
+          refine ⟨m.log (setReg m.regs r (some v')) (glob r r tr), by simp [step, hk, hm, p1, bind, Except.bind, pure, Except.pure], ?_⟩
+          have := minv_set1 h hk (es' := some (specPush c.N es x)) r tr (v' := some v') p2 (by simp only [szOf_set_self, szOf_set_none, szOf_of hs]; (try simp); (try omega))
+          simpa [specStep, hk, hs] using this
+    · exact ⟨(m, none), by simp [step, hk], by simpa [specStep, hk] using h⟩
+  | emplace r x =>
+    by_cases hk : r < c.K
+    · have hrel := h.rel r
+      cases hm : m.regs r with
+      | none =>
+        have hs : sp r = none := (rel_none hrel).mp hm
+        exact ⟨(m, none), by simp [step, hk, hm], by simpa [specStep, hk, hs] using h⟩
+      | some v =>
+        cases hs : sp r with
+        | none => rw [hm, hs] at hrel; exact hrel.elim
+        | some es =>
+          rw [hm, hs] at hrel
+          obtain ⟨v', tr, p1, p2, p3⟩ := pushBack_spec hrel x
+          refine ⟨m.log (setReg m.regs r (some v')) (glob r r tr), by simp [step, hk, hm, emplaceBack_eq, p1, bind, Except.bind, pure, Except.pure], ?_⟩
+          have := minv_set1 h hk (es' := some (specPush c.N es x)) r tr (v' := some v') p2 (by simp only [szOf_set_self, szOf_set_none, szOf_of hs]; (try simp); (try omega))
+          simpa [specStep, hk, hs] using this
+    · exact ⟨(m, none), by simp [step, hk], by simpa [specStep, hk] using h⟩
+  | resize r n =>
+    by_cases hk : r < c.K
+    · have hrel := h.rel r
+      cases hm : m.regs r with
+      | none =>
+        have hs : sp r = none := (rel_none hrel).mp hm
+        exact ⟨(m, none), by simp [step, hk, hm], by simpa [specStep, hk, hs] using h⟩
+      | some v =>
+        cases hs : sp r with
+        | none => rw [hm, hs] at hrel; exact hrel.elim
+        | some es =>
+          rw [hm, hs] at hrel
+          obtain ⟨v', tr, p1, p2, p3⟩ := resize_spec hrel n
+          refine ⟨m.log (setReg m.regs r (some v')) (glob r r tr), by simp [step, hk, hm, p1, bind, Except.bind, pure, Except.pure], ?_⟩
+          have := minv_set1 h hk (es' := some (specResize c.N es n)) r tr (v' := some v') p2 (by simp only [szOf_set_self, szOf_set_none, szOf_of hs]; (try simp); (try omega))
+          simpa [specStep, hk, hs] using this
+    · exact ⟨(m, none), by simp [step, hk], by simpa [specStep, hk] using h⟩
+  | clear r  =>
+    by_cases hk : r < c.K
+    · have hrel := h.rel r
+      cases hm : m.regs r with
+      | none =>
+        have hs : sp r = none := (rel_none hrel).mp hm
+        exact ⟨(m, none), by simp [step, hk, hm], by simpa [specStep, hk, hs] using h⟩
+      | some v =>
+        cases hs : sp r with
+        | none => rw [hm, hs] at hrel; exact hrel.elim
+        | some es =>
+          rw [hm, hs] at hrel
+          obtain ⟨v', tr, p1, p2, p3⟩ := clear_spec hrel
+          refine ⟨m.log (setReg m.regs r (some v')) (glob r r tr), by simp [step, hk, hm, p1, bind, Except.bind, pure, Except.pure], ?_⟩
+          have := minv_set1 h hk (es' := some ([])) r tr (v' := some v') p2 (by simp only [szOf_set_self, szOf_set_none, szOf_of hs]; (try simp); (try omega))
+          simpa [specStep, hk, hs] using this
+    · exact ⟨(m, none), by simp [step, hk], by simpa [specStep, hk] using h⟩
+  | del r =>
+    by_cases hk : r < c.K
+    · have hrel := h.rel r
+      cases hm : m.regs r with
+      | none =>
+        have hs : sp r = none := (rel_none hrel).mp hm
+        exact ⟨(m, none), by simp [step, hk, hm], by simpa [specStep, hk, hs] using h⟩
+      | some v =>
+        cases hs : sp r with
+        | none => rw [hm, hs] at hrel; exact hrel.elim
+        | some es =>
+          rw [hm, hs] at hrel
+          obtain ⟨v', tr, p1, p2, p3⟩ := destructor_spec hrel
+          refine ⟨m.log (setReg m.regs r none) (glob r r tr), by simp [step, hk, hm, p1, bind, Except.bind, pure, Except.pure], ?_⟩
+          have := minv_set1 h hk (es' := none) r tr (v' := none) trivial (by simp only [szOf_set_self, szOf_set_none, szOf_of hs]; (try simp); (try omega))
+          simpa [specStep, hk, hs] using this
+    · exact ⟨(m, none), by simp [step, hk], by simpa [specStep, hk] using h⟩
+  | new r =>
+    by_cases hk : r < c.K
+    · have hrel := h.rel r
+      cases hm : m.regs r with
+      | some v =>
+        cases hs : sp r with
+        | none => rw [hm, hs] at hrel; exact hrel.elim
+        | some es => exact ⟨(m, none), by simp [step, hk, hm], by simpa [specStep, hk, hs] using h⟩
+      | none =>
+        have hs : sp r = none := (rel_none hrel).mp hm
+        refine ⟨m.log (setReg m.regs r (some (defaultCtor c.N).1)) (glob r r []), by simp [step, hk, hm, defaultCtor], ?_⟩
+        have := minv_set1 h hk (es' := some []) r [] (v' := some (defaultCtor c.N).1) (abs_fresh c.N) (by simp only [szOf_set_self, szOf_set_none, szOf_of hs]; simp)
+        simpa [specStep, hk, hs] using this
+    · exact ⟨(m, none), by simp [step, hk], by simpa [specStep, hk] using h⟩
+  | range r xs =>
+    by_cases hk : r < c.K ∧ c.port = false
+    · have hrel := h.rel r
+      cases hm : m.regs r with
+      | some v =>
+        cases hs : sp r with
+        | none => rw [hm, hs] at hrel; exact hrel.elim
+        | some es => exact ⟨(m, none), by simp [step, hk, hm], by simpa [specStep, hk, hs] using h⟩
+      | none =>
+        have hs : sp r = none := (rel_none hrel).mp hm
+        obtain ⟨v', tr, p1, p2, p3, p4⟩ := rangeCtor_spec c.N xs
+        refine ⟨m.log (setReg m.regs r (some v')) (glob r r tr), by simp [step, hk, hm, p1, bind, Except.bind, pure, Except.pure], ?_⟩
+        have := minv_set1 h hk.1 (es' := some (specCtor c.N xs)) r tr (v' := some v') p2 (by simp only [szOf_set_self, szOf_set_none, szOf_of hs]; (try simp); (try omega))
+        simpa [specStep, hk, hs] using this
+    · exact ⟨(m, none), by simp [step, hk], by simpa [specStep, hk] using h⟩
+  | il r xs =>
+    by_cases hk : r < c.K ∧ c.port = false
+    · have hrel := h.rel r
+      cases hm : m.regs r with
+      | some v =>
+        cases hs : sp r with
+        | none => rw [hm, hs] at hrel; exact hrel.elim
+        | some es => exact ⟨(m, none), by simp [step, hk, hm], by simpa [specStep, hk, hs] using h⟩
+      | none =>
+        have hs : sp r = none := (rel_none hrel).mp hm
+        obtain ⟨v', tr, p1, p2, p3, p4⟩ := ilCtor_spec c.N xs
+        refine ⟨m.log (setReg m.regs r (some v')) (glob r r tr), by simp [step, hk, hm, p1, bind, Except.bind, pure, Except.pure], ?_⟩
+        have := minv_set1 h hk.1 (es' := some (specCtor c.N xs)) r tr (v' := some v') p2 (by simp only [szOf_set_self, szOf_set_none, szOf_of hs]; (try simp); (try omega))
+        simpa [specStep, hk, hs] using this
+    · exact ⟨(m, none), by simp [step, hk], by simpa [specStep, hk] using h⟩
+  | erase r i j =>
+    by_cases hk : r < c.K ∧ c.port = false
+    · have hrel := h.rel r
+      cases hm : m.regs r with
+      | none =>
+        have hs : sp r = none := (rel_none hrel).mp hm
+        exact ⟨(m, none), by simp [step, hk, hm], by simpa [specStep, hk, hs] using h⟩
+      | some v =>
+        cases hs : sp r with
+        | none => rw [hm, hs] at hrel; exact hrel.elim
+        | some es =>
+          rw [hm, hs] at hrel
+          have hsz := hrel.size
+          by_cases hij : i ≤ j ∧ j ≤ es.length
+          · obtain ⟨v', tr, p1, p2, p3, p4⟩ := erase_spec c.trk hrel hij.1 hij.2
+            have hij' : i ≤ j ∧ j ≤ v.size := by omega
+            refine ⟨m.log (setReg m.regs r (some v')) (glob r r tr), by simp [step, hk, hm, hij', p1, bind, Except.bind, pure, Except.pure], ?_⟩
+            have := minv_set1 h hk.1 (es' := some (specErase es i j)) r tr (v' := some v') p2 (by simp only [szOf_set_self, szOf_set_none, szOf_of hs]; (try simp); (try omega))
+            simpa [specStep, hk, hs, hij] using this
+          · have hij' : ¬ (i ≤ j ∧ j ≤ v.size) := by omega
+            exact ⟨(m, none), by simp [step, hk, hm, hij'], by simpa [specStep, hk, hs, hij] using h⟩
+    · exact ⟨(m, none), by simp [step, hk], by simpa [specStep, hk] using h⟩
+  | copy r s =>
+    by_cases hk : r < c.K ∧ s < c.K
+    · have hrel := h.rel r
+      have hrel2 := h.rel s
+      cases hm : m.regs r with
+      | some v =>
+        cases hs : sp r with
+        | none => rw [hm, hs] at hrel; exact hrel.elim
+        | some es => exact ⟨(m, none), by simp [step, hk, hm], by simpa [specStep, hk, hs] using h⟩
+      | none =>
+        have hs : sp r = none := (rel_none hrel).mp hm
+        cases hm2 : m.regs s with
+        | none =>
+          have hs2 : sp s = none := (rel_none hrel2).mp hm2
+          exact ⟨(m, none), by simp [step, hk, hm, hm2], by simpa [specStep, hk, hs, hs2] using h⟩
+        | some o =>
+          cases hs2 : sp s with
+          | none => rw [hm2, hs2] at hrel2; exact hrel2.elim
+          | some eo =>
+            rw [hm2, hs2] at hrel2
+            obtain ⟨v', tr, p1, p2, p3, p4⟩ := copyCtor_spec hrel2
+            refine ⟨m.log (setReg m.regs r (some v')) (glob r s tr), by simp [step, hk, hm, hm2, p1, bind, Except.bind, pure, Except.pure], ?_⟩
+            have := minv_set1 h hk.1 (es' := some eo) s tr (v' := some v') p2 (by simp only [szOf_set_self, szOf_set_none, szOf_of hs]; (try simp); (try omega))
+            simpa [specStep, hk, hs, hs2] using this
+    · exact ⟨(m, none), by simp [step, hk], by simpa [specStep, hk] using h⟩
+  | move r s =>
+    by_cases hk : r < c.K ∧ s < c.K
+    · have hrel := h.rel r
+      have hrel2 := h.rel s
+      cases hm : m.regs r with
+      | some v =>
+        cases hs : sp r with
+        | none => rw [hm, hs] at hrel; exact hrel.elim
+        | some es => exact ⟨(m, none), by simp [step, hk, hm], by simpa [specStep, hk, hs] using h⟩
+      | none =>
+        have hs : sp r = none := (rel_none hrel).mp hm
+        cases hm2 : m.regs s with
+        | none =>
+          have hs2 : sp s = none := (rel_none hrel2).mp hm2
+          exact ⟨(m, none), by simp [step, hk, hm, hm2], by simpa [specStep, hk, hs, hs2] using h⟩
+        | some o =>
+          cases hs2 : sp s with
+          | none => rw [hm2, hs2] at hrel2; exact hrel2.elim
+          | some eo =>
+            rw [hm2, hs2] at hrel2
+            have hne : r ≠ s := by intro e; subst e; rw [hm] at hm2; cases hm2
+            obtain ⟨v', o', tr, p1, p2, p3, p4, p5⟩ := moveCtor_spec c.port c.trk hrel2
+            refine ⟨m.log (setReg (setReg m.regs s (some o')) r (some v')) (glob r s tr), by simp [step, hk, hm, hm2, p1, bind, Except.bind, pure, Except.pure], ?_⟩
+            have := minv_set2 h hk.1 hk.2 hne (er' := some eo) (es' := some (if c.port then movedFrom c.trk eo else [])) tr
+              (v' := some v') (o' := some o') p2 p3 (by simp only [szOf_set_self, szOf_of hs, szOf_of hs2, p4, p5]; split <;> simp)
+            simpa [specStep, hk, hs, hs2] using this
+    · exact ⟨(m, none), by simp [step, hk], by simpa [specStep, hk] using h⟩
+  | acopy r s =>
+    by_cases hk : r < c.K ∧ s < c.K
+    · have hrel := h.rel r
+      have hrel2 := h.rel s
+      cases hm : m.regs r with
+      | none =>
+        have hs : sp r = none := (rel_none hrel).mp hm
+        exact ⟨(m, none), by simp [step, hk, hm], by simpa [specStep, hk, hs] using h⟩
+      | some v =>
+        cases hs : sp r with
+        | none => rw [hm, hs] at hrel; exact hrel.elim
+        | some es =>
+          rw [hm, hs] at hrel
+          cases hm2 : m.regs s with
+          | none =>
+            have hs2 : sp s = none := (rel_none hrel2).mp hm2
+            exact ⟨(m, none), by simp [step, hk, hm, hm2], by simpa [specStep, hk, hs, hs2] using h⟩
+          | some o =>
+            cases hs2 : sp s with
+            | none => rw [hm2, hs2] at hrel2; exact hrel2.elim
+            | some eo =>
+              rw [hm2, hs2] at hrel2
+              by_cases hrs : r = s
+              · subst hrs
+                have : eo = es := by rw [hs] at hs2; cases hs2; rfl
+                subst this
+                refine ⟨m.log m.regs [], by simp [step, hk, hm], ?_⟩
+                have e : specStep c sp (.acopy r r) = sp := by
+                  funext q
+                  by_cases hq : q = r
+                  · subst hq; simp [specStep, hk, hs, setSpec]
+                  · simp [specStep, hk, hs, setSpec, hq]
+                rw [e]; exact minv_same h
+              · obtain ⟨v', tr, p1, p2, p3, p4⟩ := assignCopy_spec hrel hrel2
+                refine ⟨m.log (setReg m.regs r (some v')) (glob r s tr), by simp [step, hk, hm, hm2, hrs, p1, bind, Except.bind, pure, Except.pure], ?_⟩
+                have := minv_set1 h hk.1 (es' := some eo) s tr (v' := some v') p2 (by simp only [szOf_set_self, szOf_set_none, szOf_of hs]; (try simp); (try omega))
+                simpa [specStep, hk, hs, hs2] using this
+    · exact ⟨(m, none), by simp [step, hk], by simpa [specStep, hk] using h⟩
+  | amove r s =>
+    by_cases hk : r < c.K ∧ s < c.K
+    · have hrel := h.rel r
+      have hrel2 := h.rel s
+      cases hm : m.regs r with
+      | none =>
+        have hs : sp r = none := (rel_none hrel).mp hm
+        exact ⟨(m, none), by simp [step, hk, hm], by simpa [specStep, hk, hs] using h⟩
+      | some v =>
+        cases hs : sp r with
+        | none => rw [hm, hs] at hrel; exact hrel.elim
+        | some es =>
+          rw [hm, hs] at hrel
+          cases hm2 : m.regs s with
+          | none =>
+            have hs2 : sp s = none := (rel_none hrel2).mp hm2
+            exact ⟨(m, none), by simp [step, hk, hm, hm2], by simpa [specStep, hk, hs, hs2] using h⟩
+          | some o =>
+            cases hs2 : sp s with
+            | none => rw [hm2, hs2] at hrel2; exact hrel2.elim
+            | some eo =>
+              rw [hm2, hs2] at hrel2
+              by_cases hrs : r = s
+              · subst hrs
+                have : eo = es := by rw [hs] at hs2; cases hs2; rfl
+                subst this
+                refine ⟨m.log m.regs [], by simp [step, hk, hm], ?_⟩
+                have e : specStep c sp (.amove r r) = sp := by
+                  funext q
+                  by_cases hq : q = r
+                  · subst hq; simp [specStep, hk, hs, setSpec]
+                  · simp [specStep, hk, hs, setSpec, hq]
+                rw [e]; exact minv_same h
+              · obtain ⟨v', o', tr, p1, p2, p3, p4, p5⟩ := assignMove_spec c.trk hrel hrel2
+                refine ⟨m.log (setReg (setReg m.regs s (some o')) r (some v')) (glob r s tr), by simp [step, hk, hm, hm2, hrs, p1, bind, Except.bind, pure, Except.pure], ?_⟩
+                have := minv_set2 h hk.1 hk.2 hrs (er' := some eo) (es' := some []) tr
+                  (v' := some v') (o' := some o') p2 p3 (by simp only [szOf_set_self, szOf_of hs, szOf_of hs2, p4, p5]; simp; omega)
+                simpa [specStep, hk, hs, hs2, hrs] using this
+    · exact ⟨(m, none), by simp [step, hk], by simpa [specStep, hk] using h⟩
+  | finish =>
+    obtain ⟨mr, h1, h2⟩ := finishLoop_spec c.K m sp [] h (Nat.le_refl _)
+    refine ⟨(mr.1, some mr.2), by simp [step, h1, bind, Except.bind, pure, Except.pure], ?_⟩
+    have e : specStep c sp .finish = specFinish c.K sp := by
+      funext q
+      simp only [specStep, specFinish]
+      by_cases hq : q < c.K
+      · rw [if_pos hq]
+      · rw [if_neg hq, h.out q (by omega)]
+    rw [e]; exact h2
+
 end Igris.C14
